@@ -804,6 +804,14 @@ def handleSpec (name : String) (ins ans : List String) : String :=
         | some h, some hm, some tm => optVerdict (Spec.oracleSigC02 h hm tm (lone == "1") msgs)
         | _, _, _ => "FAIL unparsable"
       | _, _ => "FAIL unparsable"
+    | "c08hold" =>
+      match arg.splitOn ";", parseSigEvs ans with
+      | [rate, h], some evs =>
+        let exp : Option (Option (List Byte)) := if h == "-" then some none else (unhex h).map some
+        match rate.toNat?, exp with
+        | some rate, some exp => optVerdict (Spec.oracleSigC08Hold rate exp evs)
+        | _, _ => "FAIL unparsable"
+      | _, _ => "FAIL unparsable"
     | "c08seq" =>
       match arg.splitOn ";", parseSigEvs ans with
       | [rate, txs, spans], some evs =>
